@@ -509,7 +509,12 @@ def run_check(pid, cfg, tier, seed, rundir, t0, replay):
     # panic / hang / abort of the real code is an observed outcome, not an infrastructure problem;
     # it counts as a disagreement and a failed property instance (the replay is that input).
     GENERIC_FAIL = (["panic"], ["hang"], ["abort"])
-    verdicts = [(False, False, False, False) if (v[3] and c["out"] in GENERIC_FAIL) else v
+    # The same holds for an ERROR outcome (["err", <class>]) of a class the decoder does not know:
+    # on the unchanged tree every error class the real code produces is decodable, so an unknown
+    # one is new behaviour of the code, not a renderer problem.
+    def generic_fail(out):
+        return out in GENERIC_FAIL or (isinstance(out, list) and len(out) >= 1 and out[0] == "err")
+    verdicts = [(False, False, False, False) if (v[3] and generic_fail(c["out"])) else v
                 for c, v in zip(cases, verdicts)]
     malformed = [c for c, v in zip(cases, verdicts) if v[3]]
     if malformed:
